@@ -132,7 +132,10 @@ class TaskScheduler(object):
                     # tasks awaiting it, like any other failed dependency.
                     if not task.is_computed():
                         raise
-                self._tasks.pop()
+                # (computing the future may have re-entered the scheduler and tripped the task
+                # stack limit, which resets the stack)
+                if self._tasks and self._tasks[-1] is task:
+                    self._tasks.pop()
 
     def _schedule_batch(self, batch):
         if batch.is_flushed():
